@@ -63,6 +63,30 @@ def prove_all(rlimit=20_000_000):
     l = z3.Real("l")
     db = -10 * lg(1 - l)
     vcs.append(("lemma.decimal-roundtrip", ax + [0 <= l, l < 1, db >= 0], 1 - p10(-z3.If(db >= 0, db, -db) / 10) == l))
+    # _map_mode is strictly increasing in the mode (used as a relational fact between two modular calls on the same ancilla list):
+    # (S) a strictly increasing integer sequence spreads: s[i+d] - s[i] >= d   [induction on d]
+    # (M) if ra = a + ka and rb = b + kb where ka / kb = number of sequence members below ra / rb (the proved clause `rank` of the contract),
+    #     then a < b implies ra < rb   [linear arithmetic from (S) at (kb, ka-1) and the rank clause at t = kb, ka - 1]
+    sq = z3.Const("s", z3.ArraySort(I, I))
+    nn, ii, dd, tt = z3.Ints("n i d t!mm")
+    incr = z3.ForAll([tt], z3.Implies(z3.And(0 <= tt, tt + 1 < nn), z3.Select(sq, tt) < z3.Select(sq, tt + 1)))
+    Sp = lambda i_, d_: z3.Select(sq, i_ + d_) - z3.Select(sq, i_) >= d_  # noqa: E731
+    vcs += [("lemma.increasing-spreads#base", [incr, 0 <= ii, ii < nn], Sp(ii, z3.IntVal(0))),
+            ("lemma.increasing-spreads#step", [incr, 0 <= ii, dd >= 0, ii + dd + 1 < nn, Sp(ii, dd)], Sp(ii, dd + 1))]
+    # (D) sorted() of a list of pairwise distinct integers is STRICTLY increasing (from the assumed contract of sorted: ordered + index maps p, q)
+    el = z3.Const("elem", z3.ArraySort(I, I))
+    pp, qq = z3.Const("p", z3.ArraySort(I, I)), z3.Const("q", z3.ArraySort(I, I))
+    uu, xx, yy = z3.Ints("u x!d y!d")
+    sorted_contract = [z3.ForAll([tt, uu], z3.Implies(z3.And(0 <= tt, tt < uu, uu < nn), z3.Select(sq, tt) <= z3.Select(sq, uu))),
+                       z3.ForAll([tt], z3.Implies(z3.And(0 <= tt, tt < nn), z3.And(0 <= z3.Select(pp, tt), z3.Select(pp, tt) < nn, z3.Select(sq, tt) == z3.Select(el, z3.Select(pp, tt)),
+                                                                                  z3.Select(qq, z3.Select(pp, tt)) == tt)))]
+    distinct = z3.ForAll([xx, yy], z3.Implies(z3.And(0 <= xx, xx < yy, yy < nn), z3.Select(el, xx) != z3.Select(el, yy)))
+    vcs.append(("lemma.sorted-distinct-is-strict", sorted_contract + [distinct, 0 <= ii, ii + 1 < nn], z3.Select(sq, ii) < z3.Select(sq, ii + 1)))
+    a_, b_, ka, kb = z3.Ints("a b ka kb")
+    ra, rb = a_ + ka, b_ + kb
+    rank = lambda r, k_: z3.ForAll([tt], z3.Implies(z3.And(0 <= tt, tt < nn), (z3.Select(sq, tt) < r) == (tt < k_)))  # noqa: E731
+    spread_inst = z3.Implies(z3.And(0 <= kb, kb <= ka - 1, ka - 1 < nn), z3.Select(sq, ka - 1) - z3.Select(sq, kb) >= ka - 1 - kb)      # (S) at i = kb, d = ka-1-kb
+    vcs.append(("lemma.map-mode-monotone", [nn >= 0, 0 <= ka, ka <= nn, 0 <= kb, kb <= nn, rank(ra, ka), rank(rb, kb), spread_inst, a_ < b_], ra < rb))
     for name, hyps, goal in vcs:
         s = z3.Solver()
         s.set("rlimit", rlimit)
